@@ -103,6 +103,99 @@ def oracle_all(ctx, stream, path):
         ctx.violation(fp, what, robj, True)
 
 
+# The harness' TLS server for the client-certificate path (harness/c09/tlscert.go) is a hand copy of the tls.Config
+# that pilot/pkg/bootstrap/server.go builds inline in initSecureDiscoveryService (it cannot be reached without a whole
+# istiod). These source facts tie the copy to the original: if the wiring changes, the tie breaks instead of passing.
+BOOTSTRAP_TLS_FACTS = [
+    r"ClientAuth:\s+tls\.VerifyClientCertIfGiven,",
+    r"ClientCAs:\s+peerCertVerifier\.GetGeneralCertPool\(\),",
+    r"VerifyPeerCertificate: func\(rawCerts \[\]\[\]byte, verifiedChains \[\]\[\]\*x509\.Certificate\) error \{\s+err := peerCertVerifier\.VerifyPeerCert\(rawCerts, verifiedChains\)",
+    r"peerCertVerifier\.AddMappingFromPEM\(trustDomain, rootCertBytes\)",
+]
+
+
+def source_facts(ctx):
+    import re
+    from verif import REPO
+    path = os.path.join(REPO, "pilot", "pkg", "bootstrap", "server.go")
+    try:
+        text = open(path).read()
+    except OSError as e:
+        ctx.tie_broken("bootstrap-tls-wiring", "cannot read %s: %s" % (path, e))
+        return
+    missing = [f for f in BOOTSTRAP_TLS_FACTS if not re.search(f, text)]
+    ctx.count("source-facts.bootstrap-tls.checked", len(BOOTSTRAP_TLS_FACTS))
+    if missing:
+        ctx.tie_broken("bootstrap-tls-wiring",
+                       "pilot/pkg/bootstrap/server.go no longer configures the secure gRPC port the way harness/c09/tlscert.go copies it; "
+                       "missing: " + " | ".join(missing))
+
+
+def branch_counters(ctx, stream):
+    """Distribution of the generated inputs over the branches of the modelled code (auditable from the evidence)."""
+    from urllib.parse import unquote
+    g = os.path.join(ctx.work, "%s.gen.ops" % stream)
+    i = os.path.join(ctx.work, "%s.run.impl" % stream)
+    if not (os.path.exists(g) and os.path.exists(i)):
+        return
+    ops, impl = ctx.read_lines(g), ctx.read_lines(i)
+
+    def c(key):
+        ctx.count("branch.%s.%s" % (stream, key))
+
+    for n, l in enumerate(ops):
+        f = l.split()
+        out = impl[n].split() if n < len(impl) else ["?"]
+        res = out[0] + ((":" + out[1]) if out[0] == "err" and len(out) > 1 else "")
+        if stream == "issue":
+            if f[0] == "ca":
+                c("ca.kind." + f[1])
+                d, m = int(f[5]), int(f[6])
+                c("ca.default-above-max" if d > m else "ca.default-within-max")
+                c("ca.result." + out[0])
+            elif f[0] in ("na", "nap"):
+                c("world." + ("none" if len(f) == 2 else ("private" if f[0] == "nap" else "shared")))
+                if "hide" in f:
+                    c("world.hidden-namespace")
+            elif f[0] in ("pod", "cl"):
+                c("event." + f[0] + "." + f[1])
+            elif f[0] == "req":
+                fl = f[1]
+                c("ctx." + ("xdsauth-off" if fl[0] == "0" else "no-peer" if fl[1] == "0" else
+                            ("plaintext" if fl[3] == "1" else "not-tls") if fl[2] == "0" else "authenticating"))
+                kinds = [unquote(o).split("|")[0] for o in f[2].split(",")] if f[2] != "-" else []
+                c("authenticators.%d" % len(kinds))
+                for k in kinds:
+                    c("outcome." + k)
+                csr = unquote(unquote(f[3])).split("|")
+                c("csr.form." + csr[0])
+                c("csr.key." + csr[1])
+                c("csr.asks." + ("ca" if len(csr) > 5 and csr[5] == "1" else "noca"))
+                ttl = int(f[4])
+                c("ttl." + ("nonpositive" if ttl <= 0 else "wraps" if abs(ttl) > 9223372036 else "positive"))
+                c("impersonation." + ("none" if f[5] == "-" else "non-string" if f[5] == "n" else "string"))
+                c("certsigner." + ("none" if f[6] == "-" else "set"))
+                c("result." + res)
+                if out[0] == "ok":
+                    for t in out:
+                        if t.startswith("life="):
+                            c("life." + ("clamp" if t == "life=clamp" else "chaincap" if t == "life=chaincap" else "requested-or-default"))
+            elif f[0] in ("reqa", "reqm"):
+                specs = [unquote(f[1])] if f[0] == "reqa" else [unquote(x) for x in f[1].split(",")]
+                c(f[0] + ".authenticators." + "+".join(sp.split()[0] for sp in specs))
+                c(f[0] + ".impersonation." + ("none" if f[4] == "-" else "set"))
+                c(f[0] + ".result." + res)
+            elif f[0] in ("rot", "genkeycert"):
+                c(f[0] + "." + out[0])
+        else:
+            if f[0] == "authn":
+                c("%s.%s.%s" % (f[1], f[2], res))
+                if f[1] in ("oidc", "kube"):
+                    c("%s.header-form.%s" % (f[1], f[5] if f[1] == "oidc" else f[8]))
+                if f[1] == "oidc":
+                    c("oidc.token." + f[6])
+
+
 def run(ctx):
     ctx.rule = ("issue: cases = one CA configuration (self-signed RSA / plugged ECDSA with 1-2 chain certs / no signer / expired signer / "
                 "expired chain; default and max TTL incl. default>max) + one pod world (trusted node accounts, 1-2 clusters, pods on nodes) + "
@@ -130,9 +223,11 @@ def run(ctx):
         return
     if not ctx.go_build():
         return
-    sizes = {"issue": ctx.n(1500, 30000), "authn": ctx.n(3000, 60000)}
+    sizes = {"issue": ctx.n(1200, 30000), "authn": ctx.n(2500, 60000)}
+    source_facts(ctx)
     for stream in STREAMS:
         ctx.diff_stream(stream, sizes[stream], oracle=oracle)
+        branch_counters(ctx, stream)
     # the oracle also runs on every generated and corpus case (independent of the model)
     for stream in STREAMS:
         g = os.path.join(ctx.work, "%s.gen.ops" % stream)
